@@ -496,3 +496,18 @@ CORPUS += [
     V("C20", "warmup-wraps-from-the-start", _BLS, "        if self.alpha > 0:\n            return self.baseline.wrap_dataset(dataset, *args, **kw)",
       "        if self.alpha >= 0:\n            return self.baseline.wrap_dataset(dataset, *args, **kw)", "C20.d"),
 ]
+_PD_ = "rl4co/models/zoo/ptrnet/decoder.py"
+_DECO = "rl4co/utils/decoding.py"
+CORPUS += [
+    V("C10", "ptrnet-mask-written-out-of-place-and-dropped", _PD_, '            log_p[~logit_mask] = float("-inf")\n', '            log_p.masked_fill(~logit_mask, float("-inf"))\n', "C10.k"),
+    V("C10", "eq-ptrnet-mask-written-in-place-by-method", _PD_, '            log_p[~logit_mask] = float("-inf")\n', '            log_p.masked_fill_(~logit_mask, float("-inf"))\n', None),
+    V("C10", "top-k-of-one-silently-disabled", _DECO, "        self.top_k = top_k\n", "        self.top_k = top_k if top_k is not None and top_k > 1 else 0\n", "C10.l"),
+    V("C10", "eq-top-k-none-default", _DECO, "        self.top_k = top_k\n", "        self.top_k = top_k if top_k is not None else 0\n", None),
+]
+_MT = R + "mtsp/env.py"
+CORPUS += [
+    V("C03", "mtsp-closing-leg-only-after-finish", _MT, "            done & ~was_done,\n", "            done & was_done,\n", "C03.d"),
+    V("C03", "mtsp-closing-leg-at-every-running-step", _MT, "            done & ~was_done,\n", "            done | ~was_done,\n", "C03.d"),
+    V("C03", "eq-mtsp-closing-leg-guard-commuted", _MT, "            done & ~was_done,\n", "            ~was_done & done,\n", None),
+    V("C03", "eq-mtsp-closing-leg-guard-logical-and", _MT, "            done & ~was_done,\n", "            torch.logical_and(done, ~was_done),\n", None),
+]
